@@ -40,6 +40,46 @@ CHECKS = {
             'decoders rboot + r119 trusted base', MC + ' + independent decoder oracle'),
 }
 
+CHECKS.update({
+    'C02': ('model_checking', '4/C02',
+            'Generation chains: every history over sigma1/reopen with REOPEN (write, open the bytes in a fresh object) and REOPEN_SAME (close() and re-use the object) as alphabet members, '
+            'plus seven varied base images reopened and then edited exhaustively; the last generation must equal the reference model carried across generations.',
+            'reference model; only library-produced images (no foreign corpus is vendored)', MC + ' with reopen transitions against a reference model'),
+    'C07': ('model_checking', '4/C07',
+            'Every history over the hard-link alphabet sigma7 (links in all directions between ISO9660, Joliet, UDF and the boot catalog, El Torito references, every removal, reopen): '
+            'model equality, content stored once (allocation map) and release of the volume space exactly when the last reference goes.',
+            'reference model of link semantics; 10-sector content for the space clause', MC + ' against a reference model + allocation-map and space-accounting oracles'),
+    'C12': ('exploration', '4/C12',
+            'Complete products over geometry (63 x 256), partition entry/offset/type, mbr id, plain/EFI/EFI+Mac, cylinder counts beyond 1024, image sizes in every order and histories with force_consistency before/after add_isohybrid; '
+            'decoded by an independent MBR/GPT/APM reader and compared with the non-hybrid image.',
+            'decoders rhyb/rboot/r119; isohybrid GPT array CRC convention accepted', 'exhaustive enumeration of finite parameter products on the real implementation with an independent decoder'),
+    'C13': ('exploration', '4/C13',
+            'Every path component up to length 4 (5) over 10 characters at every level as file and directory, boundary families for every length limit in every namespace, and every duplicate/re-add history up to depth 3 (4): '
+            'accepted => legal, unique in the written image, write succeeds; refused => PyCdlibInvalidInput at the edit.',
+            'legality predicate written from the documented rules', 'exhaustive string / history enumeration on the real implementation against a legality predicate'),
+    'C14': ('fault_enumeration', '4/C14',
+            'At every gap of every base history, every mechanically generated faulty call that actually raises is applied to a twin object; bytes right after, outcomes of later steps and final bytes must equal the twin without the call.',
+            'fault candidates of mc/faults.py; differential oracle needs no expected values', 'exhaustive fault placement (refused calls as deviations) over exhaustive operation sequences, differential twin oracle'),
+    'C15': ('fault_enumeration', '4/C15',
+            'Every truncation point, every byte of every non-zero metadata sector, every both-endian field / UDF word / boot-info-table word x hostile menu and pairs of pointer fields of library-produced seed images: open_fp must return or raise a documented exception within an I/O budget.',
+            'seed images from the library; structural fault model; budget = 50 x baseline calls + 2000', 'exhaustive fault enumeration over seed images under an I/O-budgeted file object'),
+    'C16': ('model_checking', '4/C16',
+            'Every stream script up to length 3 (4) over 35 operations with every placement of up to 1 (2) interfering operations, on 6 file lengths, on opened / unwritten / edited images, in lock step with io.BytesIO; extraction with every block size.',
+            'io.BytesIO is the reference model', 'exhaustive script enumeration with deviation-bounded interference against a reference stream'),
+    'C17': ('model_checking', '4/C17',
+            'Every file of every base image x every new length class x 2 contents (x a second modification): acceptance rule, byte differential of the backing file against ranges located by the independent decoders, full decode of the modified image.',
+            'decoders locate records on the image before the modification', 'exhaustive input/sequence enumeration with a byte-differential and decoder oracle'),
+    'C18': ('exploration', '4/C18',
+            'Every string up to length 4 (5) over 21 characters x level x file/dir through the manglers, acceptance through the Rock Ridge facade, collision numbering of the genisoimage tool.',
+            'legality predicate of C13', 'exhaustive string enumeration'),
+    'C19': ('exploration', '4/C19',
+            'A stated grid of instants (year boundaries, leap days, every DST transition, hourly grids) x fixed-offset and tzdata zones x 4 timestamp classes: decoded fields + offset = instant; parse/record identity.',
+            'grid, not every instant; zones whose offset is not a multiple of 15 minutes are skipped', 'exhaustive enumeration of a finite instant x zone grid'),
+    'C20': ('exploration', '4/C20',
+            'Source trees x the product of level / Rock Ridge form / Joliet / UDF / duplicate-scan options (+ boot, hide, exclude): both tools in-process, every requested view must extract to the source tree.',
+            'tools run in-process; decoders for the extension/level clause', 'exhaustive enumeration of a finite tree x option product'),
+})
+
 PENDING = {}
 
 
